@@ -131,8 +131,7 @@ def check_section(repo: Repo, rep, P: str, sec: Section, spec_chunks: Dict[str, 
         if r.shape == "ignored" and p.shape != "empty":
             rep.violation(f"{P}.R1", rcon, "pass", f"{w.cid} is written from {p.src} but the reader ignores it", r.where)
             continue
-        if p.shape == "cstring" and r.shape == "custom" and any(".decode(" in x for x in r.stmts) \
-                and any("find(0)" in x for x in r.stmts):
+        if p.shape == "cstring" and r.shape == "custom" and r.cstring_head:
             rep.ok(f"{P}.R1", rcon, f"{w.cid}: cstring ↔ custom handler starting with the cstring idiom", "compatible payload shapes")
             continue
         if r.shape not in compat:
